@@ -156,7 +156,13 @@ fn run_case(v: &Val) -> Val {
     };
     let invert = f.fld(7).b();
     let input = v.fld(2).bytes();
-    let m = match rgcfg::matcher(&pats, &o) { Ok(m) => m, Err(_) => return Val::L(vec![Val::N(2)]) };
+    // library level: when both options are requested, set both on the builder (rg's own flag parsing keeps only the
+    // last of -w/-x; RegexMatcherBuilder documents that whole_line overrides word)
+    let mut mb = rgcfg::matcher_builder(&o);
+    if o.word && o.whole_line {
+        mb.word(true).whole_line(true);
+    }
+    let m = match mb.build_many(&pats) { Ok(m) => m, Err(_) => return Val::L(vec![Val::N(2)]) };
     let run = |passthru: bool, reader: Option<usize>| -> Vec<u64> {
         let mut sb = rgcfg::searcher_builder(&o);
         sb.invert_match(invert).line_number(true).passthru(passthru);
